@@ -1639,7 +1639,7 @@ class TransportLayer(TransportLayerLogic):
                     if delay > 0:
                         self.params.wait_func(delay)   # If we are transmitting CFs, no need to call rxfn, we can stream those CF with short sleep
                     if not self.events.stop_requested.is_set():
-                        super().process(do_rx=False, do_tx=True)
+                        super().process(rx_timeout=0.0, do_rx=True, do_tx=True)    # Non-blocking read: a peer that starts sending meanwhile must get its FlowControl
                 else:
                     rx_timeout = 0.0 if self.is_tx_throttled() else self.default_read_timeout
                     super().process(rx_timeout)
